@@ -128,3 +128,52 @@ impl MemRawParts for SimMem {
         SimMem { ptr: handle.ptr as *mut u8, size, layout: element_layout, block: handle.block }
     }
 }
+
+
+/// User-defined *fixed-capacity* back end: N elements in an instrumented block, `Mem::expand`
+/// left at its default (panics), no `MemResizable`. Unlike the inline Stack storage its capacity
+/// boundary is followed by a guard zone.
+#[derive(Clone, Copy, Default)]
+pub struct SimFixed<const N: usize>;
+
+pub struct SimFixedMem {
+    ptr: *mut u8,
+    layout: Layout,
+    block: usize,
+    cap: usize,
+}
+unsafe impl Send for SimFixedMem {}
+unsafe impl Sync for SimFixedMem {}
+
+impl<const N: usize> MemBuilder for SimFixed<N> {
+    type Mem = SimFixedMem;
+    fn build(&mut self, element_layout: Layout) -> SimFixedMem {
+        let _ = env::on_call(Call::Build, element_layout.size(), element_layout.align());
+        let (ptr, block) = env::block_alloc(element_layout.size() * N, element_layout.align());
+        SimFixedMem { ptr: ptr as *mut u8, layout: element_layout, block, cap: N }
+    }
+}
+impl Mem for SimFixedMem {
+    #[inline]
+    fn as_ptr(&self) -> *const u8 {
+        self.ptr
+    }
+    #[inline]
+    fn as_mut_ptr(&mut self) -> *mut u8 {
+        self.ptr
+    }
+    #[inline]
+    fn element_layout(&self) -> Layout {
+        self.layout
+    }
+    #[inline]
+    fn size(&self) -> usize {
+        self.cap
+    }
+}
+impl Drop for SimFixedMem {
+    fn drop(&mut self) {
+        let _ = env::on_call(Call::Drop, 0, 0);
+        env::block_release(self.block);
+    }
+}
